@@ -468,6 +468,10 @@ func (m *MonSlippage) judge(s *Sim, o *slipObs, refund map[types.CoinID]*big.Int
 		m.Res.Count("on_boundary", 1)
 		m.Res.Seen(fmt.Sprintf("limit exactly met: %s %d coins", site, len(tr.Coins)))
 	}
+	if limitSite != site {
+		m.Res.Count("fee_swap_and_route_filled_orders_of_one_pool", 1)
+		m.Res.Seen("fee swap and route filled orders of the same pool: " + site)
+	}
 	if comCross {
 		m.Res.Count("fee_swap_crossed_order", 1)
 		m.Res.Seen("fee swap crossed an order: " + site)
@@ -764,6 +768,148 @@ func (c *c15Gen) plan() *c15Plan {
 	return p
 }
 
+// c15Aim is the aimed fee-pool situation (lead: added after seed C15-m2): a maker places an order selling the base coin for G at
+// (the ceiling of) the current price of pool (0,G); the very next transaction trades through the hop G -> 0 with its fee in G,
+// so that the fee conversion itself is (partly) filled from that order before the route reaches it.
+type c15Aim struct {
+	G     types.CoinID
+	Maker *Key
+	Vs    *big.Int // base coin offered by the order
+	plan  *c15Plan
+}
+
+func (c *c15Gen) aimFeePool() *c15Aim {
+	r := c.r
+	var gs []types.CoinID
+	for _, p := range c.s.Post.Pools {
+		if p.Coin0 == 0 && p.Coin1 != 0 {
+			gs = append(gs, types.CoinID(p.Coin1))
+		}
+	}
+	if len(gs) == 0 {
+		return nil
+	}
+	a := &c15Aim{G: gs[r.Intn(len(gs))]}
+	a.Vs = new(big.Int).Mul(big.NewInt(int64(1+r.Intn(9))), new(big.Int).Exp(big.NewInt(10), big.NewInt(int64(16+r.Intn(4))), nil)) // 0.01 .. 90 base coins
+	us := append([]*Key{}, c.s.W.Users...)
+	r.Shuffle(len(us), func(i, j int) { us[i], us[j] = us[j], us[i] })
+	need := new(big.Int).Add(a.Vs, Bip(100))
+	for _, k := range us {
+		if c.g.bal(k.Addr, 0).Cmp(need) > 0 {
+			a.Maker = k
+			break
+		}
+	}
+	if a.Maker == nil {
+		return nil
+	}
+	p := &c15Plan{GasPrice: 1, Gas: a.G}
+	switch x := r.Intn(10); {
+	case x < 5:
+		p.Kind, p.Type = "sell", tx.TypeSellSwapPool
+	case x < 9:
+		p.Kind, p.Type = "buy", tx.TypeBuySwapPool
+	default:
+		p.Kind, p.Type = "sellall", tx.TypeSellAllSwapPool
+	}
+	p.Coins = []types.CoinID{a.G, 0}
+	switch r.Intn(5) {
+	case 0: // one more hop behind the fee pool
+		var ys []types.CoinID
+		for _, g := range gs {
+			if g != a.G {
+				ys = append(ys, g)
+			}
+		}
+		if len(ys) > 0 {
+			p.Coins = append(p.Coins, ys[r.Intn(len(ys))])
+		}
+	case 1: // one more hop in front of it
+		var xs []types.CoinID
+		for _, q := range c.s.Post.Pools {
+			switch {
+			case types.CoinID(q.Coin0) == a.G && q.Coin1 != 0:
+				xs = append(xs, types.CoinID(q.Coin1))
+			case types.CoinID(q.Coin1) == a.G && q.Coin0 != 0:
+				xs = append(xs, types.CoinID(q.Coin0))
+			}
+		}
+		if len(xs) > 0 && p.Kind != "sellall" {
+			p.Coins = append([]types.CoinID{xs[r.Intn(len(xs))]}, p.Coins...)
+		}
+	}
+	S := p.Coins[0]
+	for _, k := range us {
+		if k != a.Maker && c.g.bal(k.Addr, S).Sign() > 0 && c.g.bal(k.Addr, a.G).Sign() > 0 {
+			p.Snd = Senderish{K: k}
+			break
+		}
+	}
+	if p.Snd.K == nil {
+		return nil
+	}
+	// the trade is 2..40 times the order (value in the coin the order deals in; other hops distort it, which is fine)
+	mult := big.NewInt(int64(2 + r.Intn(39)))
+	rG := c.reserveOf(0, a.G)
+	r0 := c.reserveOf(a.G, 0)
+	if rG == nil || r0 == nil || r0.Sign() == 0 {
+		return nil
+	}
+	switch p.Kind {
+	case "sell":
+		p.Value = new(big.Int).Mul(a.Vs, mult)
+		p.Value.Mul(p.Value, rG).Div(p.Value, r0) // about mult orders' worth of G
+		if b := c.g.bal(p.Snd.Addr(), S); p.Value.Cmp(b) > 0 {
+			p.Value = new(big.Int).Div(b, big.NewInt(2))
+		}
+		if p.Value.Sign() == 0 {
+			return nil
+		}
+	case "buy":
+		p.Value = new(big.Int).Mul(a.Vs, mult)
+		if lim := new(big.Int).Div(r0, big.NewInt(3)); p.Value.Cmp(lim) > 0 {
+			p.Value = lim
+		}
+		if p.Value.Sign() == 0 {
+			return nil
+		}
+	}
+	switch x := r.Intn(100); {
+	case x < 30:
+		p.Mode = "exact"
+	case x < 40:
+		p.Mode = "inside"
+	default:
+		p.Mode = "across"
+		p.Far = []int{0, 3, 6, 9}[r.Intn(4)]
+	}
+	a.plan = p
+	return a
+}
+
+// orderTx encodes the maker's order from the LIVE reserves of pool (0,G): price = ceiling of the pool price (the closest the node accepts).
+func (a *c15Aim) orderTx(n *Node) ([]byte, TxMeta, bool) {
+	cs := n.App.CurrentState()
+	sw := cs.Swap().GetSwapper(0, a.G)
+	if sw == nil || !sw.Exists() {
+		return nil, TxMeta{}, false
+	}
+	r0, rG := sw.Reserves()
+	if r0 == nil || r0.Sign() == 0 {
+		return nil, TxMeta{}, false
+	}
+	vb := new(big.Int).Mul(a.Vs, rG)
+	vb.Add(vb, new(big.Int).Sub(r0, big.NewInt(1))).Div(vb, r0)
+	if vb.Cmp(big.NewInt(1e10)) < 0 {
+		return nil, TxMeta{}, false
+	}
+	nonce := cs.Accounts().GetNonce(a.Maker.Addr) + 1
+	sp := &TxSpec{Nonce: nonce, ChainID: types.CurrentChainID, GasPrice: 1, GasCoin: 0, Type: tx.TypeAddLimitOrder, Signer: a.Maker,
+		Data: tx.AddLimitOrderData{CoinToSell: 0, ValueToSell: a.Vs, CoinToBuy: a.G, ValueToBuy: vb}}
+	meta := TxMeta{Type: byte(tx.TypeAddLimitOrder), Sender: hex.EncodeToString(a.Maker.Addr[:]), Nonce: nonce, GasPrice: 1, Kind: "valid", Note: "order-at-pool-price", Chain: byte(types.CurrentChainID)}
+	return sp.Encode(), meta, true
+}
+
 // relation describes where the fee coin sits relative to the route.
 func (p *c15Plan) relation() string {
 	S, B := p.Coins[0], p.Coins[len(p.Coins)-1]
@@ -839,6 +985,14 @@ func runC15(ctx *WorkCtx, idx int) {
 				plans = append(plans, p)
 			}
 		}
+		// a third of the trade blocks open with the aimed fee-pool pair: order at the pool price, then a trade through that pool with its fee in the pool's coin
+		var aim *c15Aim
+		if r.Intn(3) == 0 {
+			if aim = cg.aimFeePool(); aim != nil {
+				plans = append([]*c15Plan{aim.plan}, plans...)
+			}
+		}
+		off := 0
 		req := d.NextReq()
 		img := s.N.Image()
 		var mainTxs [][]byte
@@ -881,6 +1035,15 @@ func runC15(ctx *WorkCtx, idx int) {
 			}
 		}
 		s.RunBlock(req, nil, func(i int) ([]byte, TxMeta, bool) {
+			if i == 0 && aim != nil {
+				if bz, meta, ok := aim.orderTx(s.N); ok {
+					off = 1
+					mainTxs = append(mainTxs, bz)
+					ctx.Res.Count("aimed_fee_pool_orders", 1)
+					return bz, meta, true
+				}
+			}
+			i -= off
 			if i >= len(plans) {
 				return nil, TxMeta{}, false
 			}
@@ -894,8 +1057,9 @@ func runC15(ctx *WorkCtx, idx int) {
 			return bz, meta, true
 		})
 		if s.CurRes != nil && !s.Dead {
-			for i, dl := range s.CurRes.Deliver {
-				if i >= len(plans) || !plans[i].probeOK {
+			for j, dl := range s.CurRes.Deliver {
+				i := j - off
+				if i < 0 || i >= len(plans) || !plans[i].probeOK {
 					continue
 				}
 				p := plans[i]
